@@ -112,6 +112,10 @@ def units(tier, seed):
                            "max_dev": 2 if tier == "quick" else 3, "max_execs": 3000 if tier == "quick" else 40000})
         us.append({"kind": "step", "term": term, "n": 3, "evaluated": True, "rep": "tree", "max_dev": 1 if tier == "quick" else 2,
                    "max_execs": 600 if tier == "quick" else 5000})
+        # unusual but legal fitness values in the cached fitness of the inputs: NaN and infinities
+        for n in (3, 4):
+            us.append({"kind": "step", "term": term, "n": n, "evaluated": True, "rep": "stub", "special_values": True,
+                       "max_dev": 2 if tier == "quick" else 3, "max_execs": 1500 if tier == "quick" else 20000})
     return us
 
 
@@ -221,7 +225,8 @@ def _suffix_growth(a, b) -> bool:
 def ind_snap(ind, problems):
     fit = []
     for p in problems:
-        fit.append((ind.get_fitness(p).maximizing_aggregate, tuple(ind.get_fitness(p).fitness_components)) if ind.has_fitness(p) else None)
+        # (compared through repr: NaN is a legal fitness value and is not equal to itself)
+        fit.append((repr(ind.get_fitness(p).maximizing_aggregate), tuple(repr(x) for x in ind.get_fitness(p).fitness_components)) if ind.has_fitness(p) else None)
     ph = ind.phenotype
     return {
         "genotype": genotype_snapshot(ind.genotype) if not isinstance(ind.genotype, StubGenotype) else ("stub", ind.genotype.v, ind.genotype.serial),
@@ -264,6 +269,10 @@ def run_step(unit) -> UnitResult:
             g = bundle.extract()
         table1 = [2, 0, 1]
         table2 = [[0, 2], [2, 0], [1, 1]]
+        if unit.get("special_values"):
+            nan, inf = float("nan"), float("inf")
+            table1 = [inf, -inf, 1]
+            table2 = [[nan, 2], [2, -inf], [1, nan]]
 
         def run(src):
             if unit["rep"] == "tree":
